@@ -11,12 +11,21 @@ tokens for objects with unusual behaviour (None, falsy, raising __eq__/__bool__/
 library knows, BaseException-only errors); a case may switch debug options on (KEEP_DEPENDENCIES is part of the model,
 the DUMP_* / profiling options must not change anything); batches of 17 - 300 items form a family of their own.
 The family `reenter` (a flush body or a completion handler that cancels the batch it is called from) lies outside the
-model: it is sent to the driver in mode `batchingx` and judged by the observer and a direct expectation only.
+model: it is sent to the driver in mode `batchingx` and judged by the observer (mode rx) and a direct expectation only.
 
-The Lean model (AsynqModel.Lib.Batching) replays the same history and scripts (correspondence: result of every
-operation, every hook event in order, and a full snapshot of all batches and items after every operation) and
-the Lean observer `Batching.spec` (the statement of C11, proved of the model for all histories and all scripts)
-judges the implementation's observations on their own."""
+What the harness logs per operation: the result (or the exception it raised), in order every hook event - start of
+the harness `_flush` with the active batch seen at that moment (`body`), its end with what it raised and whether the
+batch was still pending (`bodyEnd`), every on_computed of an item with the outcome peeked and who set it (`item`),
+every item construction (`created`), every on_computed of a batch with its items that are pending at that moment
+(`announce`) - and a full read-only snapshot of all batches and items afterwards.
+
+The Lean model (AsynqModel.Lib.Batching) replays the same history and scripts (correspondence: all of the above must
+be equal) and the Lean observer `Batching.spec` (the statement of C11, proved of the model for all histories and all
+scripts: C11_spec_holds) judges the implementation's observations on their own: result of the operation, which batch
+the operation had to finish and how (`fate`: flush = body runs exactly once and decides the outcome, cancel = body
+does not run), exactly one event per change of the snapshot and no other, order (body first, no completion of an item
+of the batch after its announcement), fresh batch iff the finished batch held the slot, KEEP_DEPENDENCIES, single
+assignment, and the invariant `Good` (no item of a finished batch pending)."""
 import hashlib
 import json
 import random
@@ -25,18 +34,35 @@ PID = "C11"
 LEVEL = "proof"
 LEAN_MODULES = ["AsynqModel.Theorems.C11"]
 THEOREMS = [
+    # headline: the observer accepts every history of the model; the invariant; the inductive step for EVERY snapshot
+    # inside the invariant (hypothesis `Good s`, decidable - weaker than reachability)
     "AsynqModel.Batching.C11_spec_holds",
-    "AsynqModel.Batching.C11_once",
-    "AsynqModel.Batching.C11_flush_total",
-    "AsynqModel.Batching.C11_second_flush_error",
-    "AsynqModel.Batching.C11_cancel_total",
-    "AsynqModel.Batching.C11_no_add_after_finish",
-    "AsynqModel.Batching.C11_items_before_announce",
-    "AsynqModel.Batching.C11_item_value_flushes",
-    "AsynqModel.Batching.C11_fresh_batch_during_flush",
     "AsynqModel.Batching.C11_no_item_left_pending",
+    "AsynqModel.Batching.C11_step_accepted",
+    # per clause of the property text, all with the single hypothesis `Good s`
+    "AsynqModel.Batching.C11_once",
+    "AsynqModel.Batching.C11_flushed",
+    "AsynqModel.Batching.C11_flush",
+    "AsynqModel.Batching.C11_item_value_flushes",
+    "AsynqModel.Batching.C11_batch_value_flushes",
+    "AsynqModel.Batching.C11_cancel",
+    "AsynqModel.Batching.C11_quiet",
+    "AsynqModel.Batching.C11_no_add_after_finish",
+    "AsynqModel.Batching.C11_every_change_logged_once",
+    "AsynqModel.Batching.C11_items_before_announce",
+    "AsynqModel.Batching.C11_fresh_batch_during_flush",
     "AsynqModel.Batching.C11_set_outcome_kept",
     "AsynqModel.Batching.completeItem_fuel_enough",
+    # necessity of the hypothesis `Good s` (machine-checked witness)
+    "AsynqModel.Batching.C11_invariant_needed",
+    # holds by construction of the model (one unfolding, any state): listed for the axiom audit only, the content of
+    # this clause is the correspondence check
+    "AsynqModel.Batching.C11_second_flush_error",
+]
+BY_CONSTRUCTION = [
+    "AsynqModel.Batching.C11_second_flush_error",
+    "first conjunct of C11_flush / C11_cancel (`returns normally`): the model has no exception channel out of "
+    "flush()/cancel(); what is proved with content is the rest of these statements",
 ]
 BUILDS = {"quick": ["py"], "thorough": ["py", "cy"]}
 RULE = ("systematic core (both batch kinds x 14 flush-script templates x 7 ways of finishing a batch x 6 ways of filling it "
@@ -53,21 +79,32 @@ RULE = ("systematic core (both batch kinds x 14 flush-script templates x 7 ways 
 TRUSTED = [
     "hand-written Lean model AsynqModel.Lib.Batching tied to the code by this differential run only",
     "Python harness checks/c11.py (token <-> object identity mapping, read-only snapshot after each operation, "
-    "hooks: on_computed of every batch and item, the harness subclass's _flush)",
+    "hooks: on_computed of every batch and item, the harness subclass's _flush incl. what it raised)",
     "qcore.EventHook.safe_trigger, qcore.errors.reraise",
-    "family `reenter` (mode batchingx): the expectation written in lean/AsynqModel/Drv/Batching.lean handleX",
+    "family `reenter` (mode batchingx): the expectation written in lean/AsynqModel/Drv/Batching.lean handleX and the "
+    "observer's relaxed mode rx",
 ]
 ASSUMPTIONS = [
     "flush bodies are the scripted ones (set value/error of own items, create requests, raise); they do not re-enter "
     "flush()/value() of their own or another batch; cancelling the batch being flushed (from the body or from a "
     "completion handler) happens only in the family `reenter`, which is outside the model: no theorem speaks about it, "
-    "it is judged by the observer Batching.specClause plus the direct expectation in Drv/Batching.lean handleX",
+    "it is judged by the observer Batching.specClause in mode rx (the outcome found at the end of the body stands; the "
+    "outcome of a DebugBatch is not judged) plus the direct expectation in Drv/Batching.lean handleX",
+    "the protected hooks of the subclass other than _flush do not raise: `_cancel()` is `pass` in the harness subclass "
+    "(DebugBatch._cancel only writes a debug line), `_try_switch_active_batch()` only installs a fresh batch "
+    "(its docstring: 'Must never throw an error').  A `_cancel()` that raises makes cancel() - and flush() of a failing "
+    "body - raise, leaves the batch finished with its items pending for ever and unannounced, and item.value() return "
+    "the internal marker (batching.py:118-134; reproduced, see INTEGRATION.md A7): the property text quantifies over "
+    "what FLUSH BODIES do, so this lies outside the statement; neither model nor generator contain it",
     "on_computed handlers of items only log, issue new requests and complete pending items of the SAME batch; handlers "
     "that raise are C10's subject; handlers that re-enter flush()/cancel()/value() of a batch are not generated",
     "of the debug options only KEEP_DEPENDENCIES exists in the model; DUMP_FLUSH_BATCH, DUMP_STACK, DUMP_SYNC, "
     "DUMP_COMPUTED, DUMP_DEPENDENCIES, COLLECT_PERF_STATS are expected to change nothing observable; single thread",
     "for DebugBatch the flush body itself cannot be hooked through public API: its runs are observed through the "
-    "item completions only (run counter fixed to 0)",
+    "item completions only (run counter fixed to 0, no body/bodyEnd events; the observer then demands the outcome "
+    "None or FutureIsAlreadyComputed)",
+    "`flush()` / `cancel()` return normally: true of the model by construction (no exception channel); for the "
+    "implementation it is the observer's clauses flush-total / cancel-total on the recorded result",
 ]
 CASE_TIMEOUT = 20
 UNKNOWN = 999999
@@ -556,6 +593,16 @@ def run_case(case):
                 self.flush_count += 1
                 t = btok(self)
                 events.append("(body %d %d)" % (t, see_active()))
+                try:
+                    self._body(t)
+                except BaseException as ex:
+                    if type(ex).__name__ != "CaseTimeout":
+                        # what the body raised, and whether somebody finished the batch meanwhile (read-only)
+                        events.append("(bodyEnd %d %s %s)" % (t, et(ex), peek(self)))
+                    raise
+                events.append("(bodyEnd %d none %s)" % (t, peek(self)))
+
+            def _body(self, t):
                 for a in (scripts[t] if t < len(scripts) else []):
                     if a[0] == "setValue":
                         if a[1] < len(self.items):
